@@ -58,6 +58,16 @@ def standin_gauge(tier, seed):
             st = state.clone(disable_auto_fork=True)
             xi = st["xi"]
             st["xi"] = xi + torch.randn(xi.shape, generator=g) * 0.3 + float(torch.randn((), generator=g))
+            if r == 1 and xi.shape[0] >= 2:
+                # the far ends of the pace range: an individual 250 times faster with its onset a week before a visit, another
+                # one 250 times slower (the gauge identity holds for EVERY log-acceleration, not only plausible ones)
+                x2 = st["xi"].clone()
+                x2[0, 0], x2[1, 0] = 5.5, -5.5
+                st["xi"] = x2
+                t_all = tensor_value(st["t"])
+                tau2 = st["tau"].clone()
+                tau2[0, 0] = float(t_all[0, 0]) - 0.02
+                st["tau"] = tau2
             if "sources" in st.dag:
                 st["betas"] = torch.randn(st["betas"].shape, generator=g) * 0.5      # a non-trivial mixing matrix
                 st["sources"] = st["sources"] + torch.randn(st["sources"].shape, generator=g) * 0.5
